@@ -654,6 +654,10 @@ class Exec:
                 idx = fr.locals[p[1]]
                 if isinstance(idx, IntV) and isinstance(idx.t, int) and isinstance(val, AggV):
                     val = val.fields[idx.t]
+                elif isinstance(val, OpaqueV) and isinstance(idx, IntV):
+                    # element of an opaque byte buffer: an unconstrained byte named after buffer and index
+                    iname = str(idx.t) if isinstance(idx.t, int) else "sym"
+                    val = self.ctx.int(f"{val.name}.at.{iname}", "u8")
                 else:
                     raise Unsupported("symbolic index")
             else:
@@ -1207,7 +1211,17 @@ class Exec:
         if op == "Neg" and isinstance(a, IntV):
             return IntV(self.wrap(T.neg(a.t), a.ty), a.ty)
         if op == "PtrMetadata":
-            return a
+            if isinstance(a, IntV):
+                return a
+            # length of a slice behind a reference: an unconstrained usize named after the referent
+            tgt = a
+            if isinstance(a, RefV):
+                try:
+                    tgt = self.project(a.frame, a.frame.locals[a.local], a.proj)
+                except Exception:
+                    tgt = a
+            nm_ = getattr(tgt, "name", None) or f"anon{len(self.ctx.decls)}"
+            return self.ctx.int("len." + nm_, "usize")
         raise Unsupported(f"unop {op} on {a}")
 
     def cast(self, v, ty, kind):
